@@ -543,3 +543,39 @@ def abort_sites(cfg):
                 if st in _INT_TYS:
                     out.append((i, "Overflow(%s) via %s on &%s" % (_OP_TRAITS[g], g.split("::")[-1], st), t.get("ln"), t["args"]))
     return out
+
+
+def known_nonnegative(cfg, local, _depth=0):
+    """Value-range fact used to discharge OverflowNeg: the local is the result of
+    `i64::try_from(<u64>).unwrap_or(<non-negative const>)` (possibly through copies), hence in [0, i64::MAX]."""
+    seen = set()
+    while local not in seen and _depth < 20:
+        seen.add(local)
+        ds = cfg.defs().get(local, [])
+        if len(ds) != 1:
+            return False
+        d = ds[0]
+        if d[0] == "stmt":
+            s = d[3]
+            if s.get("r") == "Use":
+                p = op_place(s["x"])
+                if p is None or not isinstance(p, int):
+                    return False
+                local = p
+                continue
+            return False
+        t = d[3]
+        cal = cfg.callee_generic(t) or ""
+        if cal.endswith("Result::<T, E>::unwrap_or"):
+            k = op_const(t["args"][1]) or {}
+            nonneg_default = (k.get("named") or "").endswith("::MAX") or (isinstance(k.get("v"), int) and k["v"] >= 0)
+            p = op_place(t["args"][0])
+            if not nonneg_default or p is None:
+                return False
+            src = cfg.defs().get(_place_local(p), [])
+            if len(src) == 1 and src[0][0] == "call":
+                f = op_const(src[0][3]["f"]) or {}
+                return (f.get("fn") or "").endswith("TryFrom::try_from") and f.get("targs", [None, None])[:2] == ["i64", "u64"]
+            return False
+        return False
+    return False
